@@ -81,6 +81,53 @@ Proof.
   - f_equal. apply IH. intros K. apply H. now right.
 Qed.
 
+(* ---------------------------------------------------------------- sink trees: nesting flattens *)
+
+Section SinksInd.
+  Variable P : sinks -> Prop.
+  Hypothesis Hleaf : forall k, P (SLeaf k).
+  Hypothesis Hseq : forall l, Forall P l -> P (SSeq l).
+  Fixpoint sinks_ind' (t : sinks) : P t :=
+    match t with
+    | SLeaf k => Hleaf k
+    | SSeq l => Hseq l ((fix go (l : list sinks) : Forall P l :=
+                           match l with
+                           | [] => Forall_nil P
+                           | m :: r => Forall_cons m (sinks_ind' m) (go r)
+                           end) l)
+    end.
+End SinksInd.
+
+(* a (nested) sequence hands the same text to all its leaves, in declaration order *)
+Lemma sink_tree_flat s text t : forall n,
+  sink_tree t s text n = (map (fun i => Sink i s text) (seq n (nleaves t)), n + nleaves t).
+Proof.
+  induction t as [k|l IH] using sinks_ind'; intros n.
+  - simpl. f_equal. lia.
+  - cbn [sink_tree nleaves].
+    revert n. induction IH as [|m r Hm _ IHr]; intros n.
+    + simpl. f_equal. lia.
+    + rewrite Hm, IHr. rewrite seq_app, map_app. f_equal. lia.
+Qed.
+
+Lemma nleaves_flatten t : nleaves (seq_flatten t) = nleaves t.
+Proof.
+  induction t as [k|l IH] using sinks_ind'; [reflexivity|].
+  unfold seq_flatten. cbn [leaf_kinds nleaves].
+  induction IH as [|m r Hm _ IHr]; [reflexivity|].
+  rewrite map_app. unfold seq_flatten in Hm. cbn [nleaves] in Hm, IHr |- *.
+  rewrite <- Hm, <- IHr. clear.
+  induction (map SLeaf (leaf_kinds m)) as [|x xs IHx]; [reflexivity|]. cbn [app]. rewrite IHx. lia.
+Qed.
+
+(* sequence<A, sequence<B, C>>, sequence<sequence<A, B>, C> and sequence<A, B, C> deliver alike *)
+Theorem nested_sequence_flattens s text t n :
+  sink_tree t s text n = sink_tree (seq_flatten t) s text n.
+Proof. now rewrite !sink_tree_flat, nleaves_flatten. Qed.
+
+Lemma log_record_delivery cfg lg s r : log_record cfg lg s r = delivery cfg lg s r.
+Proof. unfold log_record, delivery, lg_sinks. now rewrite sink_tree_flat. Qed.
+
 (* ---------------------------------------------------------------- the smart_stream operations *)
 
 Definition dead : sstream := mkSS None None.
@@ -147,7 +194,7 @@ Proof. induction n; simpl; auto. Qed.
 
 Lemma destroy_live cfg lg sv sv' tg m b :
   ss_destroy cfg lg sv (live (mkRecord sv' tg m) b) = delivery cfg lg sv (mkRecord sv' tg b).
-Proof. reflexivity. Qed.
+Proof. cbn [ss_destroy live ss_r ss_s]. apply log_record_delivery. Qed.
 
 Lemma construct_spec th lg sv tag :
   ss_construct th lg sv tag
@@ -253,7 +300,7 @@ Proof.
   - destruct Hv as (Hlg & Hsv & Hst). cbn [fst snd]. split.
     + split; [exact Hth|]. cbn [w_slots s_slots]. apply slot_rel_set; [exact Hs | exact I].
     + unfold stream_rel in Hst. rewrite Hlg, Hsv. destruct (l_on l).
-      * rewrite Hst. reflexivity.
+      * rewrite Hst. cbn [stream_destroy]. apply destroy_live.
       * destruct Hst as [-> | ->]; reflexivity.
   - cbn [fst snd]. split; [split; assumption | reflexivity].
 Qed.
